@@ -390,7 +390,7 @@ SPARSE = [('sym', None), ('sym', 'sym'), ('herm', None), ('herm', 'herm'), ('gen
 for _acls, _bcls in SPARSE:
     for _sigma in ('none', 'zero', 'nonzero'):
         @harness(P, f'EigenSolve.sparse[A={_acls},B={_bcls},sigma={_sigma}]', targets=[f'{ES}._response', f'{ES}._sparse_eigs', f'{ES}._prepare'], timeout=60000)
-        def h_sparse(ctx, it, acls=_acls, bcls=_bcls, sigma=_sigma):
+        def h_sparse(ctx, it, acls=_acls, bcls=_bcls, sigma=_sigma, inplace=False):
             """sparse path, TWO responses on one object with different matrices (n = 4 for eigs / 3 for eigsh, one mode requested): in each call
             ARPACK receives the current A, M = B (identity when a shift is used without B), k = nmodes, sigma, and an operator OPinv that acts
             as (A - sigma B)^-1 for the CURRENT matrices (x = OPinv b satisfies (A - sigma B) x = b entry by entry, also for the adjoint);
@@ -416,7 +416,18 @@ for _acls, _bcls in SPARSE:
                 watch['sf'], watch['normval'], watch['sgn'] = [], [], []
                 A = sym_matrix(ctx, f'a{call}_', n, acls)
                 B = sym_matrix(ctx, f'b{call}_', n, bcls) if bcls else None
-                As, Bs = sparse_of(A), (sparse_of(B) if B is not None else None)
+                if inplace and call == 2:
+                    # the SAME matrix objects come back with their values overwritten in place (in-place assembly): object identity says nothing
+                    As_prev.fields['dense'].data[...] = A.data
+                    As = As_prev
+                    if B is not None:
+                        Bs_prev.fields['dense'].data[...] = B.data
+                        Bs = Bs_prev
+                    else:
+                        Bs = None
+                else:
+                    As, Bs = sparse_of(A), (sparse_of(B) if B is not None else None)
+                As_prev, Bs_prev = As, Bs
                 n_tr = len(it.trace)
                 n_upd = len(sol.updates)
                 W, Q = it.call(it.getattr(mod, '_response'), [As] + ([Bs] if Bs is not None else []))
@@ -454,6 +465,14 @@ for _acls, _bcls in SPARSE:
                     return
 
 
+for (_acls, _bcls, _sigma) in (('sym', None, 'none'), ('sym', 'sym', 'zero'), ('sym', 'sym', 'nonzero'), ('gen', None, 'none')):
+    from pvc.runner import HARNESSES as _HH
+    _HH[(P, f'EigenSolve.sparse.same_objects_updated_in_place[A={_acls},B={_bcls},sigma={_sigma}]')] = dict(
+        _HH[(P, f'EigenSolve.sparse[A={_acls},B={_bcls},sigma={_sigma}]')],
+        fn=(lambda a_, b_, s_: (lambda ctx, it: _HH[(P, f'EigenSolve.sparse[A={a_},B={b_},sigma={s_}]')]['fn'](ctx, it, inplace=True)))(_acls, _bcls, _sigma),
+        doc='as EigenSolve.sparse, but the second response receives the same matrix OBJECTS with their entries overwritten in place')
+
+
 @harness(P, 'EigenSolve.dense.class_redetected', targets=[f'{ES}._response'], finding='C11-stale-hermitian-flag')
 def h_stale_flag(ctx, it):
     """recorded finding C11-stale-hermitian-flag: the Hermitian flag is detected in the first response only, so a symmetric matrix followed by a
@@ -487,3 +506,63 @@ def h_canary(ctx, it):
     ctx.warnings_unobserved = True
     W, Q = it.call(it.getattr(mod, '_response'), [A])
     ctx.prove('strictly_ascending', V.cmp('<', W.data[0], W.data[1]))
+
+
+# ------------------------------------------------------------------------------------------------ replay of counter-models (dense path)
+def dense_replay(name, model):
+    """the matrix entries of the verifier's counter-model are handed to the real EigenSolve; the clauses of the property are evaluated natively
+    (eigen-equation residual, bilinear normalisation, ascending order, non-negative mean of real vectors) with a round-off tolerance"""
+    import re
+    from .common import _num
+    m = re.search(r'dense\[n=(\d),A=(\w+),B=(\w+),sort=(\w+)\]', name)
+    if not m or m.group(4) != 'default':
+        return None
+    n, acls, bcls = int(m.group(1)), m.group(2), m.group(3)
+
+    def mat(prefix, cls):
+        rows = []
+        for i in range(n):
+            row = []
+            for j in range(n):
+                a, b = (i, j) if (cls in ('gen', 'cgen') or j >= i) else (j, i)
+                re_ = _num(model.get(f'{prefix}{a}{b}'), 0.0)
+                im_ = _num(model.get(f'{prefix}{a}{b}i'), 0.0)
+                if cls == 'herm' and j < i:
+                    im_ = -im_
+                row.append(complex(re_, im_) if cls in ('herm', 'cgen', 'csym') else re_)
+            rows.append(row)
+        return rows
+    A = mat('a', acls)
+    B = mat('b', bcls) if bcls != 'None' else None
+    return f'''# replay of a counter-model of obligation {name}: matrices from the verifier's model
+import os, sys
+sys.path.insert(0, os.environ.get('REPO_ROOT', '/repo'))
+import numpy as np
+import pymoto as pym
+A = np.array({A!r})
+B = {('np.array(' + repr(B) + ')') if B is not None else 'None'}
+sigs = [pym.Signal('A', A)] + ([pym.Signal('B', B)] if B is not None else [])
+m = pym.EigenSolve(sigs)
+m.response()
+W, Q = [s.state for s in m.sig_out]
+Bm = np.eye({n}) if B is None else B
+bad = []
+for i in range(W.size):
+    q = Q[:, i]
+    if np.linalg.norm(A @ q - W[i] * (Bm @ q)) > 1e-8 * (1 + np.linalg.norm(A) * np.linalg.norm(q)):
+        bad.append(('eigen-equation', i))
+    if abs(q @ (Bm @ q) - 1) > 1e-8:
+        bad.append(('bilinear norm', i, complex(q @ (Bm @ q))))
+    if np.isrealobj(q) and np.mean(q) < -1e-12:
+        bad.append(('mean sign', i))
+if np.isrealobj(W) and np.any(np.diff(W) < -1e-12):
+    bad.append(('order', W.tolist()))
+print(bad)
+sys.exit(1 if bad else 0)
+'''
+
+
+from pvc.runner import HARNESSES as _ALL   # noqa: E402
+for (_p, _n), _spec in _ALL.items():
+    if _p == P and _n.startswith('EigenSolve.dense[') and 'sort=default' in _n:
+        _spec['replay'] = dense_replay
